@@ -111,6 +111,132 @@ let thr_exact line = match toks line with
   | [k; cnt; p; bin] -> res_s (display_throughput (n_of_string k) (n_of_string cnt) (n_of_string p) (bin = "1"))
   | _ -> failwith "thr.exact"
 
+
+(* ---- end-to-end table stream (mode e2e): "<api> <flag> <env> \t ok <bench>|<label>|c0|c1|c2|c3;..." ----
+   The bench set mirrors harness/hx-fmt/src/e2e.rs: name, counters (kind, count) in KnownCounterKind order,
+   and whether one allocation of 2048 bytes per iteration is reported. *)
+let e2e_benches = [
+  ("a_copy_1mib", [(0, "1048576")], false);
+  ("b_zero_items", [(3, "0")], false);
+  ("c_empty_input", [(0, "0")], false);
+  ("d_mixed", [(0, "4096"); (1, "0")], false);
+  ("e_all_zero", [(0, "0"); (1, "0"); (2, "0"); (3, "0")], false);
+  ("f_alloc_2048", [], true);
+  ("g_items_1500", [(3, "1500")], false);
+]
+
+(* The format the run is configured with: a builder call after from_args wins; otherwise the command line
+   (flag before environment) as applied by config_with_args; otherwise a builder call made before
+   config_with_args; otherwise decimal. *)
+let e2e_binary api flag envv =
+  let of_s = function "binary" -> Some true | "decimal" -> Some false | _ -> None in
+  let cli = match of_s flag with Some b -> Some b | None -> of_s envv in
+  match api with
+  | "builder-binary" -> true
+  | "builder-decimal" -> false
+  | "pre-binary" -> (match cli with Some b -> b | None -> true)
+  | "pre-decimal" -> (match cli with Some b -> b | None -> false)
+  | _ -> (match cli with Some b -> b | None -> false)
+
+let n1 = n_of_small 1
+let rec pow10 k = if k <= 0 then n1 else N.mul ten (pow10 (k - 1))
+let ceil_div a b = N.div (N.sub (N.add a b) n1) b
+
+let unit_picos = function
+  | "ps" -> Some n1 | "ns" -> Some (pow10 3) | "\xc2\xb5s" -> Some (pow10 6) | "ms" -> Some (pow10 9)
+  | "s" -> Some (pow10 12) | "m" -> Some (N.mul (n_of_small 60) (pow10 12))
+  | "h" -> Some (N.mul (n_of_small 3600) (pow10 12)) | "d" -> Some (N.mul (n_of_small 86400) (pow10 12))
+  | _ -> None
+
+let all_digits s = s <> "" && String.for_all (fun c -> c >= '0' && c <= '9') s
+
+(* a printed time cell -> the interval of integer picosecond values that print as this cell *)
+let time_interval (cell : string) : (n * n) option =
+  match String.rindex_opt cell ' ' with
+  | None -> None
+  | Some i ->
+    let num = String.sub cell 0 i and suf = String.sub cell (i + 1) (String.length cell - i - 1) in
+    let (ip, fp) = match String.index_opt num '.' with
+      | None -> (num, "")
+      | Some j -> (String.sub num 0 j, String.sub num (j + 1) (String.length num - j - 1)) in
+    (match unit_picos suf with
+     | Some u when all_digits ip && (fp = "" || all_digits fp) ->
+       let d = String.length ip and m = String.length fp in
+       let k = max m (max 0 (4 - d)) in
+       let t = N.mul (n_of_string (ip ^ fp)) (pow10 (k - m)) in
+       let lo = ceil_div (N.mul t u) (pow10 k) in
+       let hi = N.sub (ceil_div (N.mul (N.add t n1) u) (pow10 k)) n1 in
+       Some (lo, if N.ltb hi lo then lo else hi)
+     | _ -> None)
+
+(* value printed in a throughput cell as count*10^12 / p  ->  candidates for p *)
+let thr_cell_ok kind count binary (tcell : string) (cell : string) : bool =
+  match time_interval tcell with
+  | None -> false
+  | Some (lo, hi) ->
+    let out = Ok (bytes_of_string cell) in
+    let k = n_of_small kind in
+    let ok p = N.leb lo p && N.leb p hi && throughput_sb k count p binary out in
+    if count = N0 then throughput_sb k count lo binary out
+    else begin
+      let f = (match kind with 0 -> SBytesThr binary | 1 -> SChars | 2 -> SCycles | _ -> SItems) in
+      let cands = match printed_value f (bytes_of_string cell) with
+        | Some (x, y) when x <> N0 ->
+          let pm = N.div (N.mul (N.mul count (pow10 12)) y) x in
+          [lo; hi; pm; N.add pm n1; N.sub pm n1]
+        | _ -> [lo; hi] in
+      List.exists ok cands
+    end
+
+let e2e_eval (case : string) (impl : string) : (bool * string) =
+  match toks case with
+  | [api; flag; envv] ->
+    let binary = e2e_binary api flag envv in
+    if String.length impl < 3 || String.sub impl 0 3 <> "ok " then (false, "outcome:" ^ impl) else
+    let rows = List.filter (fun r -> r <> "") (String.split_on_char ';' (String.sub impl 3 (String.length impl - 3))) in
+    let rows = List.map (fun r -> match String.split_on_char '|' r with
+        | [b; l; c0; c1; c2; c3] -> (b, l, [c0; c1; c2; c3])
+        | _ -> failwith ("e2e row " ^ r)) rows in
+    let problem = ref None in
+    let fail m = if !problem = None then problem := Some m in
+    List.iter (fun (name, counters, alloc) ->
+      let mine = List.filter (fun (b, _, _) -> b = name) rows in
+      match mine with
+      | (_, "time", tcells) :: rest ->
+        let rest = ref rest in
+        let next () = match !rest with r :: tl -> rest := tl; Some r | [] -> None in
+        List.iter (fun (kind, cnt) ->
+          match next () with
+          | Some (_, "-", cells) ->
+            List.iteri (fun j cell ->
+              if not (thr_cell_ok kind (n_of_string cnt) binary (List.nth tcells j) cell) then
+                fail (Printf.sprintf "%s:counter-kind-%d:column-%d:[%s]-for-time-[%s]-count-%s-%s" name kind j cell
+                        (List.nth tcells j) cnt (if binary then "binary" else "decimal"))) cells
+          | _ -> fail (Printf.sprintf "%s:missing-throughput-row-for-counter-kind-%d-count-%s" name kind cnt)) counters;
+        if alloc then
+          List.iter (fun hdr ->
+            (match next () with
+             | Some (_, l, _) when l = hdr -> ()
+             | _ -> fail (name ^ ":missing-" ^ hdr));
+            (match next () with
+             | Some (_, "-", cells) ->
+               List.iter (fun c -> if not (f64_sb_approx four n1 n1 (Ok (bytes_of_string c))) then fail (name ^ ":alloc-count:[" ^ c ^ "]")) cells
+             | _ -> fail (name ^ ":missing-alloc-count-row"));
+            (match next () with
+             | Some (_, "-", cells) ->
+               List.iter (fun c -> if not (bytes_sb binary four (n_of_small 2048) n1 (Ok (bytes_of_string c))) then
+                             fail (Printf.sprintf "%s:%s-size:[%s]-for-2048-bytes-%s" name hdr c (if binary then "binary" else "decimal"))) cells
+             | _ -> fail (name ^ ":missing-alloc-size-row"))) ["max alloc:"; "alloc:"];
+        (match !rest with [] -> () | (_, l, cells) :: _ -> fail (name ^ ":unexpected-row:" ^ l ^ ":" ^ String.concat "," cells))
+      | _ -> fail (name ^ ":missing-bench-row")) e2e_benches;
+    (match !problem with None -> (true, "") | Some m -> (false, String.map (fun c -> if c = ' ' then '_' else c) m))
+  | _ -> failwith "e2e"
+
+let e2em line = let (c, i) = split_sb line in
+  match e2e_eval c i with (true, _) -> i | (false, m) -> "expected-table-per-model-but " ^ m
+let e2e_check line = let (c, i) = split_sb line in
+  let (b, m) = e2e_eval c i in verdict b m
+
 let dispatch mode line =
   match mode with
   | "dur" -> dur line
@@ -124,6 +250,8 @@ let dispatch mode line =
   | "thr" -> thrm line
   | "thr.sb" -> thr_check line
   | "thr.exact" -> thr_exact line
+  | "e2e" -> e2em line
+  | "e2e.sb" -> e2e_check line
   | _ -> failwith ("unknown mode " ^ mode)
 
 let () = main dispatch
